@@ -20,6 +20,7 @@ EXTENDS Naturals, Sequences, FiniteSets, TLC, Json, SequencesExt
 
 CONSTANTS Scope,     \* "small" | "full"
           Mutant,    \* "none" or a self-test mutant
+          DepMapOffered,  \* the same for the MAP field (only seen with option proto-plus-deps, where the request is a proto-plus type)
           DepEnumOffered  \* whether the emitted clients offer the ENUM field of a dependency-package request as a flattened
                           \* parameter (today they do not: non-primitive entries are dropped for such requests - a named deviation;
                           \* the harness reads it off inspect.signature, and if a client offers it, it must work like any other)
@@ -51,7 +52,8 @@ Methods ==
     [name |-> "UploadThings", cs |-> TRUE, ss |-> FALSE, void |-> FALSE, dep |-> FALSE, flat |-> <<>>, auto |-> {}],
     [name |-> "ChatThings",  cs |-> TRUE,  ss |-> TRUE,  void |-> FALSE, dep |-> FALSE, flat |-> <<>>, auto |-> {}],
     [name |-> "CheckDep",    cs |-> FALSE, ss |-> FALSE, void |-> FALSE, dep |-> TRUE,
-       flat |-> IF DepEnumOffered THEN <<"name", "tags", "kind">> ELSE <<"name", "tags">>, auto |-> {"request_id"}] }
+       flat |-> <<"name", "tags">> \o (IF DepEnumOffered THEN <<"kind">> ELSE <<>>) \o (IF DepMapOffered THEN <<"labels">> ELSE <<>>),
+       auto |-> {"request_id"}] }
 \* fields each request type actually has (the dependency-package request is smaller)
 Inv_FlatFirstOccurrence == FlatOf(<< <<"name", "tags", "count">>, <<"name", "count">>, <<"vals">> >>) = <<"name", "tags", "count", "vals">>
 HasField(m, f) == IF m.dep THEN f \in {"name", "tags", "labels", "count", "kind", "blob", "request_id"} ELSE TRUE
